@@ -291,35 +291,96 @@ theorem tokLoop_contiguous (env : Env) {σ α : Type} (step : σ → CTok → Ex
 
 /-! ### `_consume_balanced_tokens` -/
 
+/-- a closer of the expected type is never a fused pair -/
+theorem fusedClosers_self (e : String) (stack : List String) : P.fusedClosers e e stack = false := by
+  unfold P.fusedClosers
+  by_cases h : e = "DBL_RBRACKET"
+  · subst h; rfl
+  · simp [h]
+
+/-- `us` is `ts` with some `]]` tokens taken apart into two `]` (what the matcher does for
+    `a[b[0]]`) -/
+inductive Unfused : List CTok → List CTok → Prop
+  | nil : Unfused [] []
+  | keep (t : CTok) {ts us : List CTok} : Unfused ts us → Unfused (t :: ts) (t :: us)
+  | split (t : CTok) {ts us : List CTok} : t.type = "DBL_RBRACKET" → Unfused ts us →
+      Unfused (t :: ts) (P.unfused t :: P.unfused t :: us)
+
+theorem Unfused.refl : ∀ (l : List CTok), Unfused l l
+  | [] => .nil
+  | t :: ts => .keep t (Unfused.refl ts)
+
+theorem Unfused.append {a a' b b' : List CTok} (h1 : Unfused a a') (h2 : Unfused b b') : Unfused (a ++ b) (a' ++ b') := by
+  induction h1 with
+  | nil => exact h2
+  | keep t _ ih => exact .keep t ih
+  | split t ht _ ih => exact .split t ht ih
+
+/-- taking `]]` apart changes no character: the concatenated token texts are the same -/
+theorem Unfused.chars {cts us : List CTok} (h : Unfused cts us) (hv : ∀ t ∈ cts, t.type = "DBL_RBRACKET" → t.value = "]]") :
+    String.join (us.map (·.value)) = String.join (cts.map (·.value)) := by
+  induction h with
+  | nil => rfl
+  | keep t _ ih =>
+    simp only [List.map_cons, String.join_cons]
+    rw [ih (fun x hx => hv x (by simp [hx]))]
+  | split t ht _ ih =>
+    have hval := hv t (by simp) ht
+    simp only [List.map_cons, String.join_cons, P.unfused]
+    rw [ih (fun x hx => hv x (by simp [hx])), hval, ← String.append_assoc]
+    rfl
+
+/-- without `]]` tokens nothing is taken apart -/
+theorem Unfused.none {cts us : List CTok} (h : Unfused cts us) (hn : ∀ t ∈ cts, t.type ≠ "DBL_RBRACKET") : us = cts := by
+  induction h with
+  | nil => rfl
+  | keep t _ ih => rw [ih (fun x hx => hn x (by simp [hx]))]
+  | split t ht _ _ => exact absurd ht (hn t (by simp))
+
 theorem balStep_consumed (st : List CTok × List String) (tok : CTok) :
-    (∀ st', P.balStep st tok = .ok (.inl st') → st'.1 = st.1 ++ [tok]) ∧
-    (∀ r, P.balStep st tok = .ok (.inr r) → r = st.1 ++ [tok]) := by
+    (∀ st', P.balStep st tok = .ok (.inl st') → ∃ us, Unfused [tok] us ∧ st'.1 = st.1 ++ us) ∧
+    (∀ r, P.balStep st tok = .ok (.inr r) → ∃ us, Unfused [tok] us ∧ r = st.1 ++ us) := by
+  have hf : ∀ e stack, P.fusedClosers tok.type e stack = true → tok.type = "DBL_RBRACKET" := by
+    intro e stack h
+    simp only [P.fusedClosers, Bool.and_eq_true, beq_iff_eq] at h
+    exact h.1.1
   unfold P.balStep
   constructor
   · intro st' h
     dsimp only at h
     repeat' (split at h)
-    all_goals (first | (simp at h; done) | (simp at h; rw [← h]))
+    all_goals first
+      | (simp at h; done)
+      | (rename_i hfc _; simp at h; exact ⟨_, .split tok (hf _ _ hfc) .nil, by rw [← h]⟩)
+      | (simp at h; exact ⟨[tok], Unfused.refl _, by rw [← h]⟩)
   · intro r h
     dsimp only at h
     repeat' (split at h)
-    all_goals (first | (simp at h; done) | (simp at h; exact h.symm))
+    all_goals first
+      | (simp at h; done)
+      | (rename_i hfc _; simp at h; exact ⟨_, .split tok (hf _ _ hfc) .nil, h.symm⟩)
+      | (simp at h; exact ⟨[tok], Unfused.refl _, h.symm⟩)
 
 theorem runsTo_balStep (st : List CTok × List String) (cts : List CTok) (res : List CTok)
-    (h : RunsTo P.balStep st cts res) : res = st.1 ++ cts := by
+    (h : RunsTo P.balStep st cts res) : ∃ us, Unfused cts us ∧ res = st.1 ++ us := by
   induction h with
   | last hs => exact (balStep_consumed _ _).2 _ hs
-  | more hs _ ih => rw [ih, (balStep_consumed _ _).1 _ hs]; simp
+  | more hs _ ih =>
+    obtain ⟨us1, hu1, h1⟩ := (balStep_consumed _ _).1 _ hs
+    obtain ⟨us2, hu2, h2⟩ := ih
+    exact ⟨us1 ++ us2, Unfused.append hu1 hu2, by rw [h2, h1]; simp⟩
 
 /-- `_consume_balanced_tokens` returns its initial tokens followed by exactly the tokens it
-    took from the stream, in stream order, and leaves the stream right after the last one. -/
+    took from the stream, in stream order (a `]]` that closes two `[` taken apart into `]` `]`),
+    and leaves the stream right after the last one. -/
 theorem consumeBalanced_contiguous (env : Env) (F : Nat) (init : List CTok) (w w' : World) (res : List CTok)
     (h : interp env (P.consumeBalancedTokens F init) w = (w', .ok res)) :
-    ∃ (ts : List Tok) (cts : List CTok), Yields env.cfg w.buf ts w'.buf ∧ SameParse w w' ∧
-      cts.map CTok.tv = ts.map Tok.tv ∧ res = init ++ cts := by
+    ∃ (ts : List Tok) (cts us : List CTok), Yields env.cfg w.buf ts w'.buf ∧ SameParse w w' ∧
+      cts.map CTok.tv = ts.map Tok.tv ∧ Unfused cts us ∧ res = init ++ us := by
   unfold P.consumeBalancedTokens at h
   obtain ⟨ts, cts, hy, hsp, htv, hr⟩ := tokLoop_contiguous env P.balStep F _ w w' res h
-  exact ⟨ts, cts, hy, hsp, htv, runsTo_balStep _ _ _ hr⟩
+  obtain ⟨us, hu, hres⟩ := runsTo_balStep _ _ _ hr
+  exact ⟨ts, cts, us, hy, hsp, htv, hu, hres⟩
 
 /-! ### `_consume_value_until` -/
 
@@ -356,8 +417,8 @@ theorem interp_tokenIfP (env : Env) (p : CTok → Bool) (w : World) :
     (the terminator, or end of input, was only peeked). -/
 theorem consumeValueUntil_contiguous (env : Env) (types : List String) : ∀ (F : Nat) (rtoks : List CTok) (w w' : World) (res : List CTok),
     interp env (P.consumeValueUntil F rtoks types) w = (w', .ok res) →
-    ∃ (ts : List Tok) (cts : List CTok) (bmid : Buf), Yields env.cfg w.buf ts bmid ∧ Peeked env.cfg bmid w'.buf ∧
-      SameParse w w' ∧ cts.map CTok.tv = ts.map Tok.tv ∧ res = rtoks ++ cts := by
+    ∃ (ts : List Tok) (cts us : List CTok) (bmid : Buf), Yields env.cfg w.buf ts bmid ∧ Peeked env.cfg bmid w'.buf ∧
+      SameParse w w' ∧ cts.map CTok.tv = ts.map Tok.tv ∧ Unfused cts us ∧ res = rtoks ++ us := by
   intro F
   -- the inner `_consume_balanced_tokens` uses the same fuel: generalise it
   suffices hgen : ∀ (G F : Nat) (rtoks : List CTok) (w w' : World) (res : List CTok),
@@ -369,8 +430,8 @@ theorem consumeValueUntil_contiguous (env : Env) (types : List String) : ∀ (F 
             let more ← P.consumeBalancedTokens G [tok]
             pure (.inl (rtoks ++ more))
           else pure (.inl (rtoks ++ [tok])))) w = (w', .ok res) →
-      ∃ (ts : List Tok) (cts : List CTok) (bmid : Buf), Yields env.cfg w.buf ts bmid ∧ Peeked env.cfg bmid w'.buf ∧
-        SameParse w w' ∧ cts.map CTok.tv = ts.map Tok.tv ∧ res = rtoks ++ cts from
+      ∃ (ts : List Tok) (cts us : List CTok) (bmid : Buf), Yields env.cfg w.buf ts bmid ∧ Peeked env.cfg bmid w'.buf ∧
+        SameParse w w' ∧ cts.map CTok.tv = ts.map Tok.tv ∧ Unfused cts us ∧ res = rtoks ++ us from
     fun rtoks w w' res h => hgen F F rtoks w w' res h
   intro G F
   induction F with
@@ -387,7 +448,7 @@ theorem consumeValueUntil_contiguous (env : Env) (types : List String) : ∀ (F 
         simp only [htok, pure, interp, Prod.mk.injEq, Except.ok.injEq] at h
         obtain ⟨hw, hr⟩ := h
         subst hw; subst hr
-        exact ⟨[], [], w.buf, .nil _, .eof htok, SameParse.setBuf w b1, rfl, by simp⟩
+        exact ⟨[], [], [], w.buf, .nil _, .eof htok, SameParse.setBuf w b1, rfl, .nil, by simp⟩
       | some t =>
         simp only [htok] at h
         have hho := handOut_same ({ w with buf := b1 } : World) t
@@ -404,23 +465,25 @@ theorem consumeValueUntil_contiguous (env : Env) (types : List String) : ∀ (F 
               | error e => simp [hcb] at h
               | ok more =>
                 simp only [hcb, pure, interp] at h
-                obtain ⟨ts2, cts2, hy2, hsp2, htv2, hm⟩ := consumeBalanced_contiguous env G _ _ w2 more hcb
-                obtain ⟨ts3, cts3, bmid, hy3, hpk, hsp3, htv3, hres⟩ := ih _ w2 w' res h
-                refine ⟨t :: (ts2 ++ ts3), (({ w with buf := b1 } : World).handOut t).1 :: (cts2 ++ cts3), bmid, ?_, hpk,
-                  (hsame.trans hsp2).trans hsp3, ?_, ?_⟩
+                obtain ⟨ts2, cts2, us2, hy2, hsp2, htv2, hu2, hm⟩ := consumeBalanced_contiguous env G _ _ w2 more hcb
+                obtain ⟨ts3, cts3, us3, bmid, hy3, hpk, hsp3, htv3, hu3, hres⟩ := ih _ w2 w' res h
+                refine ⟨t :: (ts2 ++ ts3), (({ w with buf := b1 } : World).handOut t).1 :: (cts2 ++ cts3),
+                  (({ w with buf := b1 } : World).handOut t).1 :: (us2 ++ us3), bmid, ?_, hpk,
+                  (hsame.trans hsp2).trans hsp3, ?_, .keep _ (Unfused.append hu2 hu3), ?_⟩
                 · exact .cons htok (Yields.append (by rw [hbuf] at hy2; exact hy2) hy3)
                 · simp [CTok.tv, Tok.tv, hty, hval] at htv2 htv3 ⊢; simp [htv2, htv3]
                 · rw [hres, hm]; simp
           · simp only [hb, Bool.false_eq_true, ↓reduceIte, pure, interp] at h
-            obtain ⟨ts3, cts3, bmid, hy3, hpk, hsp3, htv3, hres⟩ := ih _ _ w' res h
-            refine ⟨t :: ts3, (({ w with buf := b1 } : World).handOut t).1 :: cts3, bmid, ?_, hpk, hsame.trans hsp3, ?_, ?_⟩
+            obtain ⟨ts3, cts3, us3, bmid, hy3, hpk, hsp3, htv3, hu3, hres⟩ := ih _ _ w' res h
+            refine ⟨t :: ts3, (({ w with buf := b1 } : World).handOut t).1 :: cts3, (({ w with buf := b1 } : World).handOut t).1 :: us3,
+              bmid, ?_, hpk, hsame.trans hsp3, ?_, .keep _ hu3, ?_⟩
             · exact .cons htok (by rw [hbuf] at hy3; exact hy3)
             · simp [CTok.tv, Tok.tv, hty, hval] at htv3 ⊢; exact htv3
             · rw [hres]; simp
         · simp only [hp, Bool.false_eq_true, ↓reduceIte, pure, interp, Prod.mk.injEq, Except.ok.injEq] at h
           obtain ⟨hw, hr⟩ := h
           subst hw; subst hr
-          refine ⟨[], [], w.buf, .nil _, ?_, ?_, rfl, by simp⟩
+          refine ⟨[], [], [], w.buf, .nil _, ?_, ?_, rfl, .nil, by simp⟩
           · simp only [List.map_cons, List.map_nil, Cxx.returnTokens, List.singleton_append]
             rw [hbuf]
             exact .back (t' := _) htok (by simp [Tok.tv, World.toTok, hty, hval])
@@ -435,6 +498,23 @@ theorem ctokOf_tv (ts : List Tok) : (ts.map ctokOf).map CTok.tv = ts.map Tok.tv 
   induction ts with
   | nil => rfl
   | cons t ts ih => simp [ctokOf, CTok.tv, Tok.tv] at ih ⊢
+
+/-- a run is a function of its start state and tokens -/
+theorem RunsTo.det {σ α : Type} {step : σ → CTok → Except Err (σ ⊕ α)} {s : σ} {cs : List CTok} {a a' : α}
+    (h1 : RunsTo step s cs a) (h2 : RunsTo step s cs a') : a = a' := by
+  induction h1 with
+  | last hs =>
+    cases h2 with
+    | last hs' => rw [hs] at hs'; injection hs' with h; injection h
+    | more hs' hr' => cases hr'
+  | more hs hr ih =>
+    cases h2 with
+    | last hs' => cases hr
+    | more hs' hr' =>
+      rw [hs] at hs'
+      injection hs' with h; injection h with h
+      subst h
+      exact ih hr'
 
 theorem RunsTo.cons_inv {σ α : Type} {step : σ → CTok → Except Err (σ ⊕ α)} {s : σ} {c : CTok} {cs : List CTok} {a : α}
     (h : RunsTo step s (c :: cs) a) :
@@ -592,7 +672,7 @@ theorem nested_steps (tys : List String) (hn : Nested tys) :
         have hin := ih1 ci hci (consumed ++ [co]) (cl :: stack) (by simp)
         have hstep2 : P.balStep (consumed ++ [co] ++ ci, cl :: stack) cc = .ok (.inl (consumed ++ [co] ++ ci ++ [cc], stack)) := by
           have hs : stack.isEmpty = false := by cases stack <;> simp_all
-          simp [P.balStep, hcc, hcl, hs]
+          simp [P.balStep, hcc, hcl, hs, fusedClosers_self]
         have hre := ih2 cr hcr (consumed ++ [co] ++ ci ++ [cc]) stack hne
         have := Steps.cons hstep1 (Steps.append hin (Steps.cons hstep2 hre))
         simpa using this
@@ -606,7 +686,7 @@ theorem balanced_region_runs (o0 : CTok) (clty : String) (hl0 : Gen.balancedToke
   have hcl : P.isBalancedEnd clty = true := balTableOK.2 _ hmem
   have hs := nested_steps _ hn content rfl [o0] [clty] (by simp)
   have hlast : P.balStep ([o0] ++ content, [clty]) closer = .ok (.inr ([o0] ++ content ++ [closer])) := by
-    simp [P.balStep, hc, hcl]
+    simp [P.balStep, hc, hcl, fusedClosers_self]
   exact Steps.runsTo hs hlast
 
 /-- `_consume_balanced_tokens(o0)` on a stream that yields properly nested content followed
@@ -619,7 +699,7 @@ theorem consumeBalanced_region (env : Env) (o0 : CTok) (clty : String)
     ∃ (w' : World) (res : List CTok), interp env (P.consumeBalancedTokens (F + 1) [o0]) w = (w', .ok res) ∧
       w'.buf = b' ∧ SameParse w w' ∧ res.map CTok.tv = o0.tv :: (content.map Tok.tv ++ [closer.tv]) := by
   have hrun : ∀ cts : List CTok, cts.map CTok.tv = (content ++ [closer]).map Tok.tv →
-      ∃ a, RunsTo P.balStep ([o0], [clty]) cts a := by
+      RunsTo P.balStep ([o0], [clty]) cts ([o0] ++ cts) := by
     intro cts hcts
     -- split cts into content' ++ [closer']
     obtain ⟨c1, c2, hsplit, h1, h2⟩ := List.map_eq_append_iff.mp (by simpa using hcts)
@@ -638,15 +718,15 @@ theorem consumeBalanced_region (env : Env) (o0 : CTok) (clty : String)
           have := congrArg Prod.fst h2
           simp [CTok.tv, Tok.tv] at this
           rw [this, hc]
-        exact ⟨_, balanced_region_runs o0 clty hl0 c1 cc (by rw [hty1]; exact hn) htyc⟩
+        have := balanced_region_runs o0 clty hl0 c1 cc (by rw [hty1]; exact hn) htyc
+        simpa [List.append_assoc] using this
   have hstack : (([o0].map (fun t => (Gen.balancedTokenMap.lookup t.type).getD "?")).reverse) = [clty] := by simp [hl0]
-  obtain ⟨w', a, cts, hw, hb, hsp, htv, hr⟩ := tokLoop_complete env P.balStep (content ++ [closer]) ([o0], [clty]) F w b' hy (by simpa using hF) hrun
+  obtain ⟨w', a, cts, hw, hb, hsp, htv, hr⟩ := tokLoop_complete env P.balStep (content ++ [closer]) ([o0], [clty]) F w b' hy (by simpa using hF) (fun cts h => ⟨_, hrun cts h⟩)
   refine ⟨w', a, ?_, hb, hsp, ?_⟩
   · unfold P.consumeBalancedTokens
     simp only [hstack]
     exact hw
-  · have := runsTo_balStep _ _ _ hr
-    simp only at this
+  · have := RunsTo.det hr (hrun cts htv)
     rw [this]
     simp [htv]
 
@@ -672,9 +752,9 @@ theorem balanced_region2_runs (o0 o1 : CTok) (cl0 cl1 : String)
   have he1 : P.isBalancedEnd cl1 = true := balTableOK.2 _ (lookup_mem hl1)
   have hs := nested_steps _ hn content rfl [o0, o1] [cl1, cl0] (by simp)
   have h1 : P.balStep ([o0, o1] ++ content, [cl1, cl0]) c1 = .ok (.inl ([o0, o1] ++ content ++ [c1], [cl0])) := by
-    simp [P.balStep, hc1, he1]
+    simp [P.balStep, hc1, he1, fusedClosers_self]
   have h0 : P.balStep ([o0, o1] ++ content ++ [c1], [cl0]) c0 = .ok (.inr ([o0, o1] ++ content ++ [c1] ++ [c0])) := by
-    simp [P.balStep, hc0, he0]
+    simp [P.balStep, hc0, he0, fusedClosers_self]
   exact Steps.runsTo (Steps.append hs (.cons h1 (.nil _))) h0
 
 
@@ -683,13 +763,12 @@ def balStack0 (init : List CTok) : List String :=
 
 theorem consumeBalanced_of_runs (env : Env) (init : List CTok) (ts : List Tok) (w : World) (b' : Buf) (F : Nat)
     (hy : Yields env.cfg w.buf ts b') (hF : ts.length ≤ F)
-    (hrun : ∀ cts : List CTok, cts.map CTok.tv = ts.map Tok.tv → ∃ a, RunsTo P.balStep (init, balStack0 init) cts a) :
+    (hrun : ∀ cts : List CTok, cts.map CTok.tv = ts.map Tok.tv → RunsTo P.balStep (init, balStack0 init) cts (init ++ cts)) :
     ∃ (w' : World) (res : List CTok), interp env (P.consumeBalancedTokens (F + 1) init) w = (w', .ok res) ∧
       w'.buf = b' ∧ SameParse w w' ∧ res.map CTok.tv = init.map CTok.tv ++ ts.map Tok.tv := by
-  obtain ⟨w', a, cts, hw, hb, hsp, htv, hr⟩ := tokLoop_complete env P.balStep ts (init, balStack0 init) F w b' hy hF hrun
+  obtain ⟨w', a, cts, hw, hb, hsp, htv, hr⟩ := tokLoop_complete env P.balStep ts (init, balStack0 init) F w b' hy hF (fun cts h => ⟨_, hrun cts h⟩)
   refine ⟨w', a, hw, hb, hsp, ?_⟩
-  have := runsTo_balStep _ _ _ hr
-  simp only at this
+  have := RunsTo.det hr (hrun cts htv)
   rw [this, List.map_append, htv]
 
 /-- split a token list that is type/text-equal to `xs ++ [y]` -/
